@@ -21,7 +21,7 @@ RULE = (
     "remove_from_link, Link.add_vertex/unlink_from (incl. None, already-listed vertices), Vertex(links=[..]), bulk creation of 7-33 parallel links (per-vertex size thresholds), toggles of Vertex.NEIGHBOR_CACHING in between, and the adjacency builders load_adj_dict / load_adj_matrix applied to existing vertices.  "
     "Bounded-exhaustive for all histories up to the stated length over 2 vertices+None, Hypothesis beyond.  "
     "After EVERY call, returned or raised, for every vertex and link reachable from the pool: "
-    "(L in v.links) == (v in L.vertices) by identity and v.links has no repeat.  The accessors are read after every call or only after every 2nd / 3rd / 5th call / at the end (a caller that does several things before looking).  Also: 63-130 parallel links created at once, one link listing one vertex 40 / 600 times, and the enumerated threshold walks (see enum_scope).  End assignments are spelled lnk.v1 = x or lnk['v1'] = x; edges / vertices are also constructed with a user attribute named like a read-only accessor (vertices, links, universes, uid): whether that raises or not, the invariant must hold.  Non-trivial = >= 3 "
+    "(L in v.links) == (v in L.vertices) by identity and v.links has no repeat.  In half of the calls the documented parameter names are used as keywords (v.add_to_link(link=l), l.add_vertex(new=v), u.add_vertex(vert=v), ...); one vertex class is iterable (a container-like vertex).  The accessors are read after every call or only after every 2nd / 3rd / 5th call / at the end (a caller that does several things before looking).  Also: 63-130 parallel links created at once, one link listing one vertex 40 / 600 times, and the enumerated threshold walks (see enum_scope).  End assignments are spelled lnk.v1 = x or lnk['v1'] = x; edges / vertices are also constructed with a user attribute named like a read-only accessor (vertices, links, universes, uid): whether that raises or not, the invariant must hold.  Non-trivial = >= 3 "
     "state-changing calls and >= 1 aliasing event (self-loop made or re-pointed, end set to its own old/other "
     "value, vertex listed twice on a link, call on a link with != 2 ends, a call that raised); distinct = "
     "distinct case value."
